@@ -38,3 +38,18 @@ Theorem C11_error_sound_weak :
   forall d e, acl_knownb d = true -> load_proc_desc d = LoadErr e -> C11_error_okw d e = true.
 Proof. exact C11_error_sound_weak_lemma. Qed.
 Print Assumptions C11_error_sound_weak.
+
+(* "its message contains them": the message of a documented rejection (model/Errors.v: the template of the
+   raising site with the displayed forms of the error's elements substituted in one pass) contains the
+   displayed form of every field of the error; for a dead input port, the port the message is about *)
+From PS Require Import Errors C11_msg.
+Theorem C11_message_names_culprit :
+  forall e m f, In m (load_err_msgs e) -> In f (load_err_fields e) -> substrb f m = true.
+Proof. exact C11_message_names_culprit_lemma. Qed.
+Print Assumptions C11_message_names_culprit.
+
+Theorem C11_dead_input_message :
+  forall ports m, In m (load_err_msgs (EDeadInput ports)) ->
+    exists p, In p ports /\ m = dead_input_msg p /\ substrb p m = true.
+Proof. exact C11_dead_input_message_lemma. Qed.
+Print Assumptions C11_dead_input_message.
